@@ -88,8 +88,8 @@ fn c01_check(case: &SimCase, st: &mut Stats) -> Result<(), String> {
     run.result
 }
 
-const BYZ: Profile = Profile { max_n: 7, byzantine: true, crashes: true, floods: false, absurd: false, len: 40 };
-const CRASHY: Profile = Profile { max_n: 5, byzantine: false, crashes: true, floods: false, absurd: false, len: 50 };
+const BYZ: Profile = Profile { max_n: 7, byzantine: true, crashes: true, floods: false, absurd: false, variants: false, len: 40 };
+const CRASHY: Profile = Profile { max_n: 5, byzantine: false, crashes: true, floods: false, absurd: false, variants: false, len: 50 };
 
 pub fn c01(env: &Env) -> i32 {
     if let Mode::Replay(path) = env.mode() {
